@@ -298,9 +298,21 @@ class Simulator:
 
                 if self.simulation_parameters is None:
                     self.simulation_parameters = []
-                self.simulation_parameters.append(self.model.get_parameter_values())
+                # Includes the parameters that are defined by an initial assignment: the
+                # result has to be read with the values this segment was run with, also
+                # after such a parameter has been given another value
+                self.simulation_parameters.append(self._parameter_values_in_force())
             case _ as e:
                 self._errors.append(e)
+
+    def _parameter_values_in_force(self) -> dict[str, float]:
+        """Value of every parameter, assignment-defined ones resolved."""
+        model = self.model
+        if (cache := model._cache) is None:  # noqa: SLF001
+            cache = model._create_cache()  # noqa: SLF001
+        return {
+            k: cache.all_parameter_values[k] for k in model.get_parameter_names()
+        }
 
     def simulate(
         self,
